@@ -1236,8 +1236,13 @@ def assess(case, schedule, obs, L, replay_ans, judge_ans, res, ctx, shut_ans=Non
         raise RuntimeError(f'driver error: {life_ans}')
     if life_ans is not None and (ctx is None or ctx.model_ok):
         k = life_ans['refused_at'] if life_ans['refused_at'] is not None else life_ans['mismatch_at']
-        if k is not None:
-            acts = to_life_acts(obs)
+        acts = to_life_acts(obs) if k is not None else None
+        if k is not None and life_ans.get('at') in ('c12', 'c13') and acts[k]['ev'] == 'get.io' and life_ans['refused_at'] is not None:
+            # a connect() nested in connect() (queue_request of the set-up requests finds self.io gone): not covered by the model,
+            # the replay ends here (the run is still judged by the monitors)
+            if hasattr(res, 'count'):
+                res.count('life-cycle-replays-ended-at-a-nested-connect')
+        elif k is not None:
             res.disagreements.append({
                 'model': 'life-cycle model: the acting thread is at %s, which does not produce event %d: %s'
                          % (life_ans.get('at'), k, acts[k]),
@@ -1479,7 +1484,7 @@ def e2e_assess(obs, a):
 
 
 META = {
-    'level_text': 'Four models of the repaired SecopClient, theorems for all reachable states (any number of callers, requests, '
+    'level_text': 'Five models of the repaired SecopClient, theorems for all reachable states (any number of callers, requests, '
                   'lines, any interleaving, disconnects at any point).  (1) matching LTS, one action per shared access of caller, '
                   'tx, rx and disconnecting threads: reply_matches_partial (known actions), no_double_delivery, no_parking, '
                   'no_lost_request (every queued request is still in the machinery or its caller is answered / released / timed out; '
@@ -1492,22 +1497,36 @@ META = {
                   'shutdown_terminates (deadlock-freedom after any shutdown request: user, peer, failing send, or several).  '
                   '(4) connection object (one TCP endpoint: peer lines / FIN / RST, client readline / send / shutdown / disconnect): '
                   'conn_contract (shutdown and disconnect never raise, readline raises nothing but ConnectionClosed and does so '
-                  'on a dead connection, only lines the peer sent are returned).  Counter-traces: reply_matches_fails (F21, '
-                  'recorded), reply_fresh_fails, no_parking_unlocked_fails (the client before the repair).  Models (1) and (3) are '
-                  'replayed against every run of the real client under a deterministic scheduler, model (4) against real AsynTcp '
-                  'objects on loopback sockets and against the scripted FakeConn; the Lean monitors judge every run.',
+                  'on a dead connection, only lines the peer sent are returned).  (5) life cycle across connections (threads as '
+                  'records: user disconnect()/request(), tx/rx workers behind their start gate, reconnect threads with cancel events '
+                  'and registry; connect() with _lock, queue replacement, _shutdown.clear(), AsynConn accepted/refused, registration '
+                  'of the workers; disconnect(shutdown) with its locals; one step per shared access, ~110 program points): '
+                  'shutdown_final_partial (in every reachable state, while the shutdown request of a returned user disconnect() '
+                  'stands - flag not cleared since - self.io is None and no thread is past the test of the flag inside connect(): '
+                  'not connected, and nobody can connect until a user asks), reconnect_never_revokes (a reconnect thread never clears '
+                  'the flag).  Counter-traces: reply_matches_fails (F21, recorded), reply_fresh_fails, no_parking_unlocked_fails, '
+                  'and on model (5) with the code before the repairs: marker_eaten_hangs (disconnect() waits for ever in '
+                  'txthread.join(): proved for every continuation without a fault of the environment), '
+                  'older_reconnect_connects_after_shutdown, no_worker_in_loop_fails.  Models (1), (3) and (5) are replayed '
+                  'against every (attribute-level) run of the real client under a deterministic scheduler, model (4) against real '
+                  'AsynTcp objects on loopback sockets and against the scripted FakeConn; the Lean monitors judge every run.',
     'level_note': 'Trusted: Lean kernel + propext/Classical.choice/Quot.sound; queue.Queue / Event / RLock / join semantics are '
                   'those of vlib.sched (modelled, not verified); sections under the request lock are atomic in the model; the '
                   'conversion of the effect log to labels (harness) and the JSON glue.  Model (2) is tied to the source by '
-                  'reading (anchored comments) and by the generated constants, not by replay; connect(), the reconnect threads, '
-                  'the cancel event and the start gate of the workers are outside all models and are covered by schedule '
-                  'exploration (catalogue scenarios with a node that accepts connections again, systematic + long-preemption '
-                  'schedules) and by the monitors ShutdownClean / ShutdownFinal only.  Model (4) is tied to AsynTcp on the '
-                  'loopback interface of this kernel; AsynSerial is not covered.',
+                  'reading (anchored comments) and by the generated constants, not by replay.  For model (5) the liveness half of '
+                  'the shutdown clauses (disconnect() terminates, the worker threads run out) is NOT proved - only the safety half '
+                  'above, the single-connection shutdown_terminates of model (3), two evaluated schedules, and the exploration '
+                  '(catalogue scenarios with a node that accepts connections again; systematic, long-preemption and priority '
+                  'schedules) with the monitors ShutdownClean / ShutdownFinal; a connect() nested in connect() and time are not in '
+                  'model (5).  Model (4) is tied to AsynTcp on the loopback interface of this kernel; AsynSerial is not covered.',
     'trusted': [
         'vlib.sched primitives behave like threading/queue (one thread runs at a time, yield before every primitive)',
         'code executed under SecopClient._request_lock is atomic with respect to the other sections under that lock',
         'the effect-log -> label conversion in harness/props/c11.py (checked by the replay: every label must be enabled)',
+        'life-cycle model: every shared access of connect()/disconnect()/the workers/the reconnect threads is a yield point or a '
+        'logged effect of the attribute-level runs (attributes io, _txthread, _rxthread, _running, _connthread, _cancel_reconnect, the '
+        'registry, queues, events, locks, joins); reads of self.txq / self.pending are not yield points (the queue object used is '
+        'checked by its number); list(dict.items()) and dict item assignment are single steps',
         'fewer than 30 requests are queued or parked at any time in the untimed model (the timed layer models the bound)',
         'timed layer: a caller whose put/wait time-out expired takes its step before the clock moves on (tick is not enabled past a blocked caller\'s deadline)',
         'connection model: loopback TCP of the test machine stands for TCP (a peer action is given 30 ms to reach the client; the outcome sets are loose where the kernel is free)',
@@ -1518,7 +1537,7 @@ META = {
         'AsynTcp (Client/Conn.lean; replayed on loopback sockets) and its stand-in FakeConn (replayed on the same model; its '
         'silent-loss mode send_error=false is an additional adversary outside that model)',
         'decode_msg / encode_msg_frame, the cache update of update-class messages, callbacks',
-        'connect() / _reconnect / the cancel event / the start gate of the workers (exercised by the harness, not part of any model)',
+        'a connect() nested in connect() (the set-up request finds self.io gone): the life-cycle replay ends there',
         'timed layer: transcribed from the source, not replayed against runs',
     ],
     'assumptions': ['request identifiers are not "." (the rx thread maps "." to None)',
